@@ -108,6 +108,14 @@ func (x BinaryList) Value() interface{} {
 	return [][]byte(x)
 }
 
+func (x BinaryList) Len() int {
+	return len(x)
+}
+
+func (x BinaryList) Item(i int) Value {
+	return Binary(x[i])
+}
+
 func (x BinaryList) Compare(y Comparable) int {
 	yl := [][]byte(y.(BinaryList))
 	if len(x) < len(yl) {
